@@ -214,6 +214,7 @@ LEVEL_TEXT = ('The library constructors are Gallina functions (LibBuild/Model.v:
               'measurement tags of every ancilla in the unrolled listing read heralded; parity^cycles (heralded; final for 0 cycles) = C13\'s block_tags, and of every data qubit '
               'heralded; final; instantiated for the chain description of every distance with explicit numeric bounds.')
 LEVEL_NOTE = ('The theorems are about Core/Model.v run on the constructor programs; the tie (this run) makes the programs the constructors. spec_ok is the tag-sequence statement '
-              'evaluated on the implementation\'s reported unrolled listing (where reported), without the model; for the other cases it is `true` (pseudo-property: the tie is the point). '
-              'Not covered: detector / observable arguments, the C10 no-overlap certificate for all d (see the final report). No axioms.')
+              'evaluated on the implementation\'s reported unrolled listing (where reported), without the model; (for chain descriptions also the two count formulas); for the other cases it is `true` (pseudo-property: the tie is the point). '
+              ' Partial: the C10 no-overlap certificate on the constructor programs is evaluated for a finite list of small chains only '
+              '(LibBuild_chain_no_overlap_partial: distance 2, 3; up to 6 cycles), not proved for all d. Not covered: detector / observable arguments. No axioms.')
 TECHNIQUE = 'Gallina mirror of the constructors + node-for-node structural correspondence evaluated by vm_compute + Coq proofs over all descriptions and cycle counts'
